@@ -42,6 +42,11 @@ def progress(prev, cur, st):
             if total >= 1:
                 return 'yes', 'advances by >= %s' % total
             return 'no', 'may advance by 0 octets (offset lower bound %s)' % total
+    # growth: the new value is the old one with something appended (x += b'\\x00')
+    from ..values import BytesV
+    if isinstance(cur, BytesV) and cur.parts and cur.parts[0][0] == 'opq' and prims_same(prev, cur.parts[0][1]) \
+            and len(cur.parts) > 1:
+        return 'grows', 'the loop variable grows (%s) instead of shrinking' % cur.desc()[:60]
     return 'unknown', 'new cursor %s is not a suffix of the old one %s' % (cur.desc()[:80], prev.desc()[:80])
 
 
@@ -142,9 +147,20 @@ def check(prog, rep, tier):
                 continue
             bad = None
             unk = None
+            # a loop that grows its test variable terminates only under an upper-bound test (len(x) < K);
+            # `!=` / `==`-style tests are overshot by an input that is already longer
+            bounded_growth = isinstance(w.test, ast.Compare) and len(w.test.ops) == 1 and \
+                isinstance(w.test.ops[0], (ast.Lt, ast.LtE)) and 'len(' in src_of(w.test.left)
             for res, path in o:
                 if any(r[1] == 'yes' for r in res):
                     continue
+                if any(r[1] == 'grows' for r in res):
+                    if bounded_growth:
+                        continue
+                    bad = ([(r[0], 'no', r[2] + '; `while %s` does not bound the growth from above, an input that is '
+                             'already past the target never satisfies it' % src_of(w.test)) for r in res
+                            if r[1] == 'grows'], path)
+                    break
                 if any(r[1] == 'no' for r in res):
                     bad = (res, path)
                     break
